@@ -26,6 +26,11 @@ Theorem C11_one_ticket_per_id : forall id reqs st, (grant_count id reqs st <= 1)
 Proof. exact grant_at_most_one. Qed.
 Print Assumptions C11_one_ticket_per_id.
 
+(** simultaneous requests of one kind for DIFFERENT job ids, served in any order: never more tickets than the pool holds *)
+Theorem C11_pool_bound : forall f ids st, 0 <= tickets f st -> Z.of_nat (grant_pool f ids st) <= tickets f st.
+Proof. exact grant_pool_bound. Qed.
+Print Assumptions C11_pool_bound.
+
 (** a log of run starts / ends that the model accepts has no overlapping runs of one id and never
     exceeds a pool (this is what the correspondence check establishes for the observed logs) *)
 Theorem C11_replay_spec : forall capF capI log st st',
@@ -35,8 +40,8 @@ Proof. exact replay_spec. Qed.
 Print Assumptions C11_replay_spec.
 
 (** Outcome, repaired variant, over the finite lattice of job building blocks
-    (3 sources x 5 transforms x 3 sinks x 2 trigger types x 2 job types x 6 handler sets, + kill for
-    the slow source = 1440 configurations; decided by vm_compute and lifted with forallb_forall - the
+    (5 sources x 6 transforms x 3 sinks x 2 trigger types x 2 job types x 6 handler sets, + kill for
+    the slow source and the two stalling http remotes = 3456 configurations; decided by vm_compute and lifted with forallb_forall - the
     bound is the lattice itself): every accepted configuration ends with a stored result
     (success, failure or kill), the run slot released and the process alive. *)
 Theorem C11_outcome : forall c, In c all_cfgs -> accepted jfixed c = true ->
@@ -45,7 +50,7 @@ Theorem C11_outcome : forall c, In c all_cfgs -> accepted jfixed c = true ->
 Proof. exact outcome_lattice. Qed.
 Print Assumptions C11_outcome.
 
-Theorem C11_lattice_size : length all_cfgs = 1440%nat.
+Theorem C11_lattice_size : length all_cfgs = 3456%nat.
 Proof. exact lattice_size. Qed.
 Print Assumptions C11_lattice_size.
 
@@ -106,9 +111,9 @@ Proof. exact empty_batch_rejected. Qed.
 Print Assumptions C11_empty_batch_rejected.
 
 (** F11e: with a log handler the transform is wrapped, the type test for *JavascriptTransform fails and the parallel
-    workers share one JS runtime (data race): 45 configurations of the lattice whose outcome on the pinned tree is not
+    workers share one JS runtime (data race): 75 configurations of the lattice whose outcome on the pinned tree is not
     determined ([racy]); none once the workers are cloned.  ([C11_current_char] describes the run without the race.) *)
-Theorem C11_racy : length (filter (racy jcurrent) all_cfgs) = 45%nat /\ forall c, racy jfixed c = false.
+Theorem C11_racy : length (filter (racy jcurrent) all_cfgs) = 75%nat /\ forall c, racy jfixed c = false.
 Proof. split; [exact racy_current_count | exact racy_fixed]. Qed.
 Print Assumptions C11_racy.
 
@@ -116,7 +121,7 @@ Print Assumptions C11_racy.
 Theorem C11_agree_implies_spec : forall c, 0 <= t_capF c -> 0 <= t_capI c ->
   agree jfixed c = true -> spec_ok c = true.
 Proof.
-  intros c HF HI H. destruct (t_barrier c) eqn:Hb; [exact (agree_spec_barrier jfixed c Hb H)|].
+  intros c HF HI H. destruct (t_barrier c) eqn:Hb; [exact (agree_spec_barrier jfixed c Hb HF HI H)|].
   destruct (t_iscfg c) eqn:Hk.
   - exact (agree_fixed_spec_cfg c Hb Hk H).
   - exact (agree_fixed_spec_raffle jfixed c Hb Hk HF HI H).
@@ -131,6 +136,6 @@ Example C11_nonvacuous_1 :
   /\ replay [OBorrow 1 false; OBorrow 2 false] (r_init 2 1) = None.
 Proof. vm_compute. repeat split. Qed.
 Example C11_nonvacuous_2 :
-  length (filter (accepted jfixed) all_cfgs) = 1200%nat
-  /\ length (filter dies_current all_cfgs) = 470%nat.
+  length (filter (accepted jfixed) all_cfgs) = 2880%nat
+  /\ length (filter dies_current all_cfgs) = 868%nat.
 Proof. vm_compute. split; reflexivity. Qed.
